@@ -143,9 +143,12 @@ def one(case, acc):
             sp0, tp0 = os.path.join(tmp, 'script0.json'), os.path.join(tmp, 'transcript0.jsonl')
             with open(sp0, 'w') as f:
                 json.dump([['password', True], ['shell', 'sh', '$ ']], f)
-            s0 = pxssh.pxssh(timeout=2, encoding=o['enc'])
+            # (generous limits: this login only sets the scene, and pxssh's prompt synchronisation is sensitive to a
+            # loaded machine)
+            s0 = pxssh.pxssh(timeout=10, encoding=o['enc'])
             try:
-                s0.login('h', username='user', password=PW, login_timeout=1, cmd='%s -S -E %s %s %s' % (PY, FAKE, sp0, tp0))
+                s0.login('h', username='user', password=PW, login_timeout=10, sync_multiplier=3,
+                         cmd='%s -S -E %s %s %s' % (PY, FAKE, sp0, tp0))
             except ExceptionPexpect as e0:
                 raise PeerError('the earlier default login failed: %s' % e0)
             finally:
@@ -383,6 +386,9 @@ def guarded(case, acc):
             one(case, acc)
     except CaseTimeout as e:
         acc.violation('login-does-not-return', 'login did not finish within 120 s (%s): %s' % (e, json.dumps(case['steps'])), case)
+    except PeerError as e:
+        # the scene could not be set (not an observation about the session under test)
+        acc.inconc('peer: %s' % e)
 
 
 def run_shard(spec, acc):
